@@ -164,7 +164,8 @@ func (self *ProxyServerProtocol) ProcessLockResultCommandLocked(command *protoco
 	if self.serverProtocol == defaultServerProtocol {
 		defaultServerProtocol.slock.clientsGlock.Lock()
 		if self.serverProtocol == defaultServerProtocol {
-			if serverProtocol, ok := defaultServerProtocol.slock.clients[self.clientId]; ok {
+			// the all-zero id is what a connection that never announced a client id carries: nobody takes over for it
+			if serverProtocol, ok := defaultServerProtocol.slock.clients[self.clientId]; ok && self.clientId != [16]byte{} {
 				defaultServerProtocol.slock.clientsGlock.Unlock()
 				err := serverProtocol.AddProxy(self)
 				if err == nil {
